@@ -158,7 +158,7 @@ func LoadEnv(id string) *Env {
 			for _, f := range doc.Findings {
 				// scope "corpus": a region the generator avoids by construction; its signature only excuses the
 				// corpus reproduction, never a violation met by the random search
-				if f.Property == id && f.Status == "known" && !(f.Scope == "corpus" && e.Mode == "search") {
+				if f.Property == id && f.Status == "known" && !(f.Scope == "corpus" && e.Mode != "corpus" && e.Mode != "replay") {
 					e.Known[f.Signature] = f
 				}
 			}
@@ -245,6 +245,40 @@ func Main[C any](t *testing.T, p Prop[C]) {
 	default:
 		runSearch(t, p, env)
 	}
+}
+
+// Fuzz runs the property under Go's native coverage-guided fuzzer: the fuzzer's bytes drive the same generator
+// (rapid.MakeFuzz), the same oracle decides. A violation that is not a listed finding fails the target after
+// leaving a replay file for the driver.
+func Fuzz[C any](f *testing.F, p Prop[C]) {
+	env := LoadEnv(p.ID)
+	// seed corpus: byte streams long enough for the generator to complete (fixed constants, not a random source)
+	for i := uint64(1); i <= 6; i++ {
+		b := make([]byte, 16384)
+		x := 0x9E3779B97F4A7C15 * i
+		for k := range b {
+			x ^= x << 13
+			x ^= x >> 7
+			x ^= x << 17
+			b[k] = byte(x >> 24)
+		}
+		f.Add(b)
+	}
+	f.Fuzz(rapid.MakeFuzz(func(rt *rapid.T) {
+		c := p.Gen(rt)
+		o := SafeCheck(p, c)
+		for _, v := range o.Violations {
+			if _, ok := env.Known[v.Sig]; ok {
+				continue
+			}
+			cb, _ := json.Marshal(c)
+			rf := ReplayFile{Property: p.ID, Note: "found by the native fuzzer", Case: cb, Violations: []Violation{v}}
+			b, _ := json.MarshalIndent(rf, "", " ")
+			_ = os.MkdirAll(env.ReplayDir, 0o755)
+			_ = os.WriteFile(filepath.Join(env.ReplayDir, "fuzz-"+hashKey(v.Sig)+".json"), b, 0o644)
+			rt.Fatalf("%s", v.Sig)
+		}
+	}))
 }
 
 func readReplay(path string) (*ReplayFile, error) {
